@@ -359,6 +359,7 @@ class FVAnalysis:
 
 
 def run(ctx):
+    ctx.rule("R06.13", "outside constructors fresh storage (make_unique / new) is assigned to data_ only where size_ == 0 is established: elements are not destroyed under bounds that describe them while data_ already points elsewhere")
     prog = ctx.prog
     for r, d in (("R06.1", "constructors establish the invariant; capacity_ and the allocation size come from the same expression"),
                  ("R06.2", "every method preserves 0 <= size_ <= capacity_; capacity_ only written at construction/whole assignment"),
@@ -560,6 +561,23 @@ def run(ctx):
             ctx.check(bool(okr), "R06.3", f, "bulk-read-within-size:%s@%s" % (tag, node.get("ln")),
                       "%s reads the slots %s of `%s` with %s and `end <= %s.size_` is not provable: slots behind size() hold values the container does not contain (popped, erased or never "
                       "filled ones are copied along; for a moved-from source the range lies over null storage)" % (short(f.qual), desc, obj, short(node.get("name") or ""), obj), (f, node.get("ln")))
+        # ---- R06.13: fresh storage is never assigned over live elements. `data_ = make_unique<T[]>(n)` destroys the old elements (user
+        # destructors run) at a moment when data_ already points at the new slots while size_ / capacity_ still describe the old content: what
+        # a destructor sees through its container - and what a copy taken there reads - are slots the caller never filled, possibly beyond the
+        # new allocation. Outside constructors the storage changes hands by swap / move with another consistent container, or the container
+        # is provably empty (size_ == 0) when it receives fresh storage
+        if not is_ctor:
+            for (kind, node, z, b, e, extra) in a.events:
+                if kind != "assign" or a.za.varname(ir.unwrap(node.get("l"))) != "data_":
+                    continue
+                rhs = node.get("r")
+                fresh = rhs is not None and any(isinstance(y, dict) and ((y.get("k") == "call" and short(y.get("name") or "") in ("make_unique", "make_unique_for_overwrite")) or y.get("k") == "new") for y in walk(rhs))
+                if not fresh:
+                    continue
+                ctx.check(z.entails("size_", Z, 0), "R06.13", f, "fresh-storage-only-when-empty:" + tag,
+                          "%s assigns fresh storage to data_ (`%s`) while size_ may be non-zero: the old elements are destroyed with data_ already pointing at the new slots and size_ / capacity_ "
+                          "still describing the old ones - an element destructor (or anything it calls) that looks at its container sees %s slots that were never filled, beyond the new "
+                          "allocation when the old size is larger" % (short(f.qual), fmt(node)[:60], "size_"), (f, node.get("ln")), why_ok="size_ == 0 at the assignment")
         # writes that are justified by capacity_ alone (not below size_) need the storage to exist whenever capacity_ > 0
         if not is_ctor:
             # blocks in which *this receives storage (assignment / swap of data_): a write dominated by one of them has its own storage
